@@ -8,6 +8,7 @@ import (
 	"github.com/plgd-dev/go-coap/v3/message/codes"
 	"github.com/plgd-dev/go-coap/v3/message/pool"
 	coapNet "github.com/plgd-dev/go-coap/v3/net"
+	"github.com/plgd-dev/go-coap/v3/net/blockwise"
 	"github.com/plgd-dev/go-coap/v3/net/responsewriter"
 )
 
@@ -85,6 +86,7 @@ type zzConnCfg struct {
 	nstart     uint32
 	errs       *int
 	poolSize   uint32
+	blockwise  bool // block-wise transfer enabled (SZX 16, the same wiring as udp.Client)
 }
 
 func zzNewConn(s *zzSession, c zzConnCfg) *Conn {
@@ -116,6 +118,14 @@ func zzNewConn(s *zzSession, c zzConnCfg) *Conn {
 	cfg.LimitClientParallelRequests = 4
 	cfg.LimitClientEndpointParallelRequests = 4
 	cfg.ReceivedMessageQueueSize = 2
+	if c.blockwise {
+		cfg.BlockwiseSZX = blockwise.SZX16
+		return NewConnWithOpts(s, &cfg, WithBlockWise(func(v *Conn) *blockwise.BlockWise[*Conn] {
+			return blockwise.New(v, timeDuration(3000000000), cfg.Errors, func(token message.Token) (*pool.Message, bool) {
+				return v.GetObservationRequest(token)
+			})
+		}))
+	}
 	return NewConnWithOpts(s, &cfg)
 }
 
@@ -130,4 +140,8 @@ func zzRequest(typ message.Type, mid int32, code codes.Code, token message.Token
 		m.SetBody(bytesReader(payload))
 	}
 	return m
+}
+
+func zzWaitWritten(s *zzSession, n int) {
+	symWaitUntil(func() bool { return len(s.written) >= n })
 }
